@@ -149,7 +149,7 @@ theorem tx_records_well_formed (H : Str → Str) (pr : Nat) (c : Bool) (ops : Li
 
 /-- a record with its single recipient of weight 1 pays that recipient the whole amount -/
 theorem single_recipient_gets_everything (t : Tenant) (r : Rec) (o : Str) (amount : Nat) (ha : r.amount = (amount : Int))
-    (hr : r.rcpt = [{ addr := o, weight := 1 }]) (hv : hexAddrIsNull o = false) :
+    (hr : r.rcpt = [{ addr := o, weight := 1 }]) (hv : payable o = true) :
     (payBatch t r).map evAmount = [amount] := by
   have hvr : validRcpts r = [{ addr := o, weight := 1 }] := by simp [validRcpts, hr, hv]
   unfold payBatch
